@@ -123,7 +123,7 @@ _tlc_n = 0
 _tlc_lock = __import__("threading").Lock()
 
 RE_STATES = re.compile(r"(\d+) states generated, (\d+) distinct states found, (\d+) states left on queue")
-RE_PRINT = re.compile(r'^<<"([A-Z_]+)", (.*)>>$')
+RE_PRINT = re.compile(r'^<<\s*"([A-Z_]+)",\s*(.*?)\s*>>$')
 
 
 class TlcResult:
@@ -206,7 +206,22 @@ def run_tlc(files, module, cfg, workers=1, timeout=900, simulate=None, depth=Non
     res.wall = time.time() - t0
     res.output = out
     res.dir = d
+    # TLC wraps long PrintT tuples over several lines: re-join them
+    joined, buf = [], None
     for line in out.splitlines():
+        if buf is not None:
+            buf += " " + line.strip()
+            if line.rstrip().endswith(">>"):
+                joined.append(buf)
+                buf = None
+            continue
+        if line.startswith("<<") and not line.rstrip().endswith(">>"):
+            buf = line.strip()
+            continue
+        joined.append(line)
+    if buf is not None:
+        joined.append(buf)
+    for line in joined:
         m = RE_STATES.search(line)
         if m:
             res.generated, res.distinct, res.queue = int(m.group(1)), int(m.group(2)), int(m.group(3))
